@@ -667,8 +667,12 @@ func serialOrderExists(st uint64, ops []gop, final uint64) bool {
 			next = 0
 		case 1:
 			next = o.w
-		default:
+		case 2:
 			next, ok = o.w, o.s == st
+		case 3: // Has answered o.s (1/0)
+			next, ok = st, (o.s == 1) == (st != 0)
+		default: // Get returned o.s (0: not found)
+			next, ok = st, o.s == st
 		}
 		if !ok {
 			continue
@@ -836,7 +840,238 @@ func runGate(r *hx.Run, rng *hx.Rng) string {
 	return fmt.Sprintf("conc gate 20 %d %s %s %s", final, csv(ks), csv(ws), csv(ss))
 }
 
+// ---------------------------------------------------------------------------------------------
+// reader-gate schedules: a reader (Has or Get on a cold cache) is parked inside its store call — right before the
+// store is asked, or right after it has answered — while 1-3 writers (Delete / Set / Compute with unique values) are
+// started and given time to run.  A correct TypedValue holds the write lock around the store read and the cache
+// fill, so the writers wait; an implementation that reads the store outside the lock lets them through and then
+// caches what the store said before they ran.  Oracle: some serial order of reader and writers explains the reader's
+// answer, what every compute function was given and the final raw value; and at quiescence Get and Has answer what
+// the store holds.
+
+type parkStore struct {
+	kvstore.KVStore
+	pre, post atomic.Bool
+	entered   chan struct{}
+	release   chan struct{}
+}
+
+func (p *parkStore) park(flag *atomic.Bool) {
+	if flag.CompareAndSwap(true, false) {
+		close(p.entered)
+		<-p.release
+	}
+}
+
+func (p *parkStore) Has(k kvstore.Key) (bool, error) {
+	p.park(&p.pre)
+	h, err := p.KVStore.Has(k)
+	p.park(&p.post)
+
+	return h, err
+}
+
+func (p *parkStore) Get(k kvstore.Key) (kvstore.Value, error) {
+	p.park(&p.pre)
+	v, err := p.KVStore.Get(k)
+	p.park(&p.post)
+
+	return v, err
+}
+
+func (p *parkStore) Set(k kvstore.Key, v kvstore.Value) error {
+	err := p.KVStore.Set(k, v)
+	scribble(v)
+
+	return err
+}
+
+func descOps(ops []gop) string {
+	var desc []string
+	for _, o := range ops {
+		switch o.kind {
+		case 0:
+			desc = append(desc, "Delete")
+		case 1:
+			desc = append(desc, fmt.Sprintf("Set(%d)", o.w))
+		case 2:
+			desc = append(desc, fmt.Sprintf("Compute(given %d -> %d)", o.s, o.w))
+		case 3:
+			desc = append(desc, fmt.Sprintf("Has()=%v", o.s == 1))
+		default:
+			desc = append(desc, fmt.Sprintf("Get()=%d", o.s))
+		}
+	}
+
+	return strings.Join(desc, ", ")
+}
+
+func runRGate(r *hx.Run, rng *hx.Rng) string {
+	if runtime.GOMAXPROCS(0) < 4 {
+		runtime.GOMAXPROCS(4)
+	}
+	base := mapdb.NewMapDB()
+	ps := &parkStore{KVStore: base, entered: make(chan struct{}), release: make(chan struct{})}
+	init := uint64(0)
+	if rng.Chance(2, 3) {
+		init = 10
+		base.Set(tvKey, encU64(10)) // raw: the object's cache stays cold
+	}
+	tv := kvstore.NewTypedValue[uint64](ps, tvKey,
+		func(v uint64) ([]byte, error) { return encU64(v), nil },
+		func(b []byte) (uint64, int, error) {
+			v, ok := decU64(b)
+			if !ok {
+				return 0, 0, errDec
+			}
+
+			return v, 8, nil
+		})
+	sig := func(oracle, api string) map[string]string {
+		return map[string]string{"oracle": oracle, "api": api, "part": "rgate"}
+	}
+	bad := func(what string) string {
+		r.Fail("watchdog", what, sig("watchdog", "TypedValue"))
+
+		return "conc rgate 0 0 - - - 0 0"
+	}
+	readerGet := rng.Bool()
+	if readerGet && init != 0 && rng.Bool() {
+		// presence known, value not: Get still has to read the store
+		if h, err := tv.Has(); err != nil || !h {
+			return bad("Has on a stored key failed")
+		}
+	}
+	where := "post"
+	if rng.Chance(1, 3) {
+		where = "pre"
+		ps.pre.Store(true)
+	} else {
+		ps.post.Store(true)
+	}
+	reader := gop{kind: 3}
+	if readerGet {
+		reader.kind = 4
+	}
+	var wg sync.WaitGroup
+	var failures atomic.Int64
+	wg.Add(1)
+	go func() {
+		defer wg.Done()
+		if readerGet {
+			v, err := tv.Get()
+			switch {
+			case err == nil:
+				reader.s = v
+			case errors.Is(err, kvstore.ErrKeyNotFound):
+				reader.s = 0
+			default:
+				failures.Add(1)
+			}
+		} else {
+			h, err := tv.Has()
+			if err != nil {
+				failures.Add(1)
+			}
+			if h {
+				reader.s = 1
+			}
+		}
+	}()
+	select {
+	case <-ps.entered:
+	case <-time.After(10 * time.Second):
+		close(ps.release)
+
+		return bad("the parked reader never reached the store")
+	}
+	n := rng.Range(1, 3)
+	ops := make([]gop, 0, n+1)
+	for i := 0; i < n; i++ {
+		switch x := rng.Intn(10); {
+		case x < 5:
+			ops = append(ops, gop{kind: 0})
+		case x < 7:
+			ops = append(ops, gop{kind: 1, w: uint64(100 + i)})
+		default:
+			ops = append(ops, gop{kind: 2, w: uint64(100 + i)})
+		}
+	}
+	for i := range ops {
+		o := &ops[i]
+		wg.Add(1)
+		go func() {
+			defer wg.Done()
+			var err error
+			switch o.kind {
+			case 0:
+				err = tv.Delete()
+			case 1:
+				err = tv.Set(o.w)
+			default:
+				_, err = tv.Compute(func(cur uint64, ex bool) (uint64, error) {
+					o.s = 0
+					if ex {
+						o.s = cur
+					}
+
+					return o.w, nil
+				})
+			}
+			if err != nil {
+				failures.Add(1)
+			}
+		}()
+	}
+	time.Sleep(time.Duration(rng.Range(300, 2500)) * time.Microsecond)
+	close(ps.release)
+	if !waitAll(&wg, 60*time.Second) {
+		return bad("reader-gate schedule: the calls did not return within 60s")
+	}
+	if failures.Load() != 0 {
+		return bad("reader-gate schedule: a call failed although no fault was injected")
+	}
+	final := uint64(0)
+	if raw, err := base.Get(tvKey); err == nil {
+		final, _ = decU64(raw)
+	}
+	all := append([]gop{reader}, ops...)
+	// ---- property oracle ----
+	if !serialOrderExists(init, all, final) {
+		r.Fail("serialised", fmt.Sprintf("reader parked %s its store call over stored %d (0 = absent): no serial order of [%s] explains the answers and the final value %d",
+			where, init, descOps(all), final), sig("not-serialisable", "TypedValue"))
+	}
+	qh, herr := tv.Has()
+	gv, gerr := tv.Get()
+	if gerr != nil {
+		gv = 0
+	}
+	if herr != nil || qh != (final != 0) {
+		r.Fail("cache-coherent", fmt.Sprintf("reader parked %s its store call over stored %d, then [%s]: at quiescence Has=(%v,%v) but the store holds %d (0 = absent)",
+			where, init, descOps(all), qh, herr, final), sig("cache-has", "TypedValue.Has"))
+	}
+	if (gerr == nil) != (final != 0) || gv != final || (gerr != nil && !errors.Is(gerr, kvstore.ErrKeyNotFound)) {
+		r.Fail("cache-coherent", fmt.Sprintf("reader parked %s its store call over stored %d, then [%s]: at quiescence Get=(%d,%v) but the store holds %d (0 = absent)",
+			where, init, descOps(all), gv, gerr, final), sig("cache-value", "TypedValue.Get"))
+	}
+	ks, ws, ss := make([]uint64, len(all)), make([]uint64, len(all)), make([]uint64, len(all))
+	for i, o := range all {
+		ks[i], ws[i], ss[i] = o.kind, o.w, o.s
+	}
+	r.Count("conc:rgate-rounds")
+	r.Count("conc:rgate-reader-" + map[bool]string{true: "get", false: "has"}[readerGet] + "-" + where)
+	qhn := 0
+	if qh {
+		qhn = 1
+	}
+
+	return fmt.Sprintf("conc rgate %d %d %s %s %s %d %d", init, final, csv(ks), csv(ws), csv(ss), gv, qhn)
+}
+
 func runConc(r *hx.Run, kind string, rng *hx.Rng) string {
+	if kind == "rgate" {
+		return runRGate(r, rng)
+	}
 	if kind == "mixed" {
 		return runMixed(r, rng)
 	}
@@ -851,8 +1086,8 @@ func runConc(r *hx.Run, kind string, rng *hx.Rng) string {
 }
 
 func concPart(r *hx.Run) {
-	nc, nm, nwide, ngate := 200*r.Scale, 120*r.Scale, 8*r.Scale, 300*r.Scale
-	for i := 0; i < nc+nm+nwide+ngate; i++ {
+	nc, nm, nwide, ngate, nrgate := 200*r.Scale, 120*r.Scale, 8*r.Scale, 300*r.Scale, 300*r.Scale
+	for i := 0; i < nc+nm+nwide+ngate+nrgate; i++ {
 		rng, sub := r.Rng.Fork()
 		r.Case(sub)
 		kind := "counter"
@@ -865,10 +1100,13 @@ func concPart(r *hx.Run) {
 		if i >= nc+nm+nwide {
 			kind = "gate"
 		}
+		if i >= nc+nm+nwide+ngate {
+			kind = "rgate"
+		}
 		line := runConc(r, kind, rng)
 		r.Line(line, "accept")
 		r.Count("op:conc." + kind)
-		if i < 2 || i == nc {
+		if i < 2 || i == nc || i == nc+nm+nwide+ngate {
 			if len(line) > 300 {
 				line = line[:300] + "…"
 			}
